@@ -283,9 +283,14 @@ impl Rec {
         self.active = mine;
         if mine {
             self.g = Regs::new();
+            // the recording modes (guard allocator, dirty / roomy operands) travel with the case so that a replay re-records alike
+            let modes: Vec<String> = ["HARNESS_GUARD", "HARNESS_DIRTY", "HARNESS_ROOMY"]
+                .iter()
+                .filter_map(|k| std::env::var(k).ok().map(|v| format!("\"{}\":\"{}\"", k, v)))
+                .collect();
             let line = format!(
-                "{{\"op\":\"case\",\"id\":{},\"label\":\"{}\",\"driver\":\"{}\",\"seed\":{},\"tier\":\"{}\",\"profile\":\"{}\"}}",
-                self.case_no, label, self.driver, self.seed, self.tier, self.profile
+                "{{\"op\":\"case\",\"id\":{},\"label\":\"{}\",\"driver\":\"{}\",\"seed\":{},\"tier\":\"{}\",\"profile\":\"{}\",\"modes\":{{{}}}}}",
+                self.case_no, label, self.driver, self.seed, self.tier, self.profile, modes.join(",")
             );
             self.emit(&line);
         }
@@ -553,15 +558,45 @@ impl Rec {
     /// register copy through Clone
     pub fn clone_u(&mut self, s: usize, d: usize) {
         self.op("clone", "clone", &[u(s)], &[u(d)], "\"ty\":\"U\"", |g| {
-            g.u[d] = g.u[s].clone();
+            g.u[d] = g.u[s].roomy();
             Ret::none()
         });
     }
     pub fn clone_i(&mut self, s: usize, d: usize) {
         self.op("clone", "clone", &[i(s)], &[i(d)], "\"ty\":\"I\"", |g| {
-            g.i[d] = g.i[s].clone();
+            g.i[d] = g.i[s].roomy();
             Ret::none()
         });
+    }
+}
+
+/// `clone()`, except that under HARNESS_ROOMY the copy owns spare capacity (three times its length plus 80 digits), as a
+/// value does that was shrunk in place by earlier operations: by-value and in-place operator forms then run on operands
+/// whose buffer could hold the result, which is the state a capacity-keyed fast path looks at.
+pub trait Roomy {
+    fn roomy(&self) -> Self;
+}
+fn roomy_on() -> bool {
+    use std::sync::OnceLock;
+    static ON: OnceLock<bool> = OnceLock::new();
+    *ON.get_or_init(|| std::env::var_os("HARNESS_ROOMY").is_some())
+}
+impl Roomy for num_bigint::BigUint {
+    fn roomy(&self) -> Self {
+        let mut c = self.clone();
+        if roomy_on() {
+            c.verif_reserve(2 * self.verif_raw().len() + 80);
+        }
+        c
+    }
+}
+impl Roomy for num_bigint::BigInt {
+    fn roomy(&self) -> Self {
+        let mut c = self.clone();
+        if roomy_on() {
+            c.verif_reserve(2 * self.magnitude().verif_raw().len() + 80);
+        }
+        c
     }
 }
 
